@@ -416,7 +416,7 @@ def run(prog, ctx):
                 detail = "%s[elem=%s]" % (o.detail, o.operands[1][1])
             # the key names the sink (kind, function, operation, operand); the byte sources are in the message, not in the key:
             # their block numbers move under harmless edits of the reader
-            key = "C14|%s|%s|%s|%s" % (o.kind, o.fn, detail, o.label)
+            key = "C14|%s|%s|%s" % (o.kind, o.fn, detail)      # (no operand names either: locals get renamed)
             acc = ACCEPTED_INVARIANTS.get((o.fn, o.label))
             if acc is not None and acc[1](prog):
                 kinds[o.kind][3] += 1
